@@ -1020,6 +1020,17 @@ impl<'a> UserModel<'a> {
     /// * [UserModel::range_clear_contents]
     pub fn range_clear_formatting(&mut self, range: &Area) -> Result<(), String> {
         let sheet = range.sheet;
+        // validate the whole area before the first cell is touched
+        self.model.workbook.worksheet(sheet)?;
+        if range.width < 1
+            || range.height < 1
+            || !is_valid_row(range.row)
+            || !is_valid_row(range.row + range.height - 1)
+            || !is_valid_column_number(range.column)
+            || !is_valid_column_number(range.column + range.width - 1)
+        {
+            return Err("Incorrect row or column".to_string());
+        }
         let mut diff_list = Vec::new();
         if range.row == 1 && range.height == LAST_ROW {
             for column in range.column..range.column + range.width {
